@@ -114,3 +114,164 @@ theorem load_delimited_eq_model {γ : Type} (s : List Char) (convs : List (Conv 
         have e2 : decide ((1 : Int) = len convs) = false := decide_eq_false (by rw [hl]; omega)
         simp only [e1, e2, Bool.false_eq_true, if_false]
         rw [Cols.ofList_of_length_ne_one _ (by rw [columns_length]; exact hone)]
+
+/-! ## the typed wrappers (one call of `load_delimited` + conversion; the validate-then-warn blocks are skipped) -/
+
+/-- what `load_delimited` as translated returns for a table the model loads as `rows` -/
+theorem load_delimited_of_table {γ : Type} (s : List Char) (convs : List (Conv γ)) (d : Delim)
+    (c : Option (List Char)) :
+    Mir.Gen.io.load_delimited s convs d c =
+      match loadTable convs d c s with
+      | .ok rows => .ok (Cols.ofList (columns convs.length rows))
+      | .error e => .error (observe e) := by
+  rw [load_delimited_eq_model]
+  unfold loadDelimited
+  cases loadTable convs d c s <;> rfl
+
+theorem load_events_eq_model {α : Type} (conv : Conv α) (s : List Char) (d : Delim) (c : Option (List Char)) :
+    Mir.Gen.io.load_events conv s d c = obs (loadEvents conv d c s) := by
+  unfold Mir.Gen.io.load_events loadEvents
+  simp only [load_delimited_of_table, bind, Except.bind]
+  cases hr : loadTable [numConv conv] d c s with
+  | error e => rfl
+  | ok rows =>
+    have h0 := numAt_of_loadRows hr 0 conv rfl
+    simp [columns_one, Cols.ofList, npArrayCols, cellNums_column 0 rows h0, Except.map, pure, Except.pure]
+
+/-- labels are returned as the cells the `str` converter made: `Cell.str` of the model's labels -/
+theorem load_labeled_events_eq_model {α : Type} (conv : Conv α) (s : List Char) (d : Delim)
+    (c : Option (List Char)) :
+    Mir.Gen.io.load_labeled_events conv s d c =
+      obs ((loadLabeledEvents conv d c s).map fun (t, l) => (t, l.map Cell.str)) := by
+  unfold Mir.Gen.io.load_labeled_events loadLabeledEvents
+  simp only [load_delimited_of_table, bind, Except.bind]
+  cases hr : loadTable [numConv conv, strConv] d c s with
+  | error e => rfl
+  | ok rows =>
+    have h0 := numAt_of_loadRows hr 0 conv rfl
+    have h1 := strAt_of_loadRows hr 1 rfl
+    simp [columns_two, Cols.ofList, npArray, cellNums_column 0 rows h0, column_str 1 rows h1, Except.map, pure,
+      Except.pure]
+
+theorem load_intervals_eq_model {α : Type} (conv : Conv α) (s : List Char) (d : Delim) (c : Option (List Char)) :
+    Mir.Gen.io.load_intervals conv s d c = obs (loadIntervals conv d c s) := by
+  unfold Mir.Gen.io.load_intervals loadIntervals
+  simp only [load_delimited_of_table, bind, Except.bind]
+  cases hr : loadTable [numConv conv, numConv conv] d c s with
+  | error e => rfl
+  | ok rows =>
+    have h0 := numAt_of_loadRows hr 0 conv rfl
+    have h1 := numAt_of_loadRows hr 1 conv rfl
+    simp [columns_two, Cols.ofList, npPairs_columns 0 1 rows h0 h1, Except.map, pure, Except.pure]
+
+theorem load_labeled_intervals_eq_model {α : Type} (conv : Conv α) (s : List Char) (d : Delim)
+    (c : Option (List Char)) :
+    Mir.Gen.io.load_labeled_intervals conv s d c =
+      obs ((loadLabeledIntervals conv d c s).map fun (iv, l) => (iv, l.map Cell.str)) := by
+  unfold Mir.Gen.io.load_labeled_intervals loadLabeledIntervals
+  simp only [load_delimited_of_table, bind, Except.bind]
+  cases hr : loadTable [numConv conv, numConv conv, strConv] d c s with
+  | error e => rfl
+  | ok rows =>
+    have h0 := numAt_of_loadRows hr 0 conv rfl
+    have h1 := numAt_of_loadRows hr 1 conv rfl
+    have h2 := strAt_of_loadRows hr 2 rfl
+    simp [columns_three, Cols.ofList, npPairs_columns 0 1 rows h0 h1, column_str 2 rows h2, Except.map, pure,
+      Except.pure]
+
+theorem load_time_series_eq_model {α : Type} (conv : Conv α) (s : List Char) (d : Delim)
+    (c : Option (List Char)) :
+    Mir.Gen.io.load_time_series conv s d c = obs (loadTimeSeries conv d c s) := by
+  unfold Mir.Gen.io.load_time_series loadTimeSeries
+  simp only [load_delimited_of_table, bind, Except.bind]
+  cases hr : loadTable [numConv conv, numConv conv] d c s with
+  | error e => rfl
+  | ok rows =>
+    have h0 := numAt_of_loadRows hr 0 conv rfl
+    have h1 := numAt_of_loadRows hr 1 conv rfl
+    simp [columns_two, Cols.ofList, npArray, cellNums_column 0 rows h0, cellNums_column 1 rows h1, Except.map, pure,
+      Except.pure]
+
+theorem load_valued_intervals_eq_model {α : Type} (conv : Conv α) (s : List Char) (d : Delim)
+    (c : Option (List Char)) :
+    Mir.Gen.io.load_valued_intervals conv s d c = obs (loadValuedIntervals conv d c s) := by
+  unfold Mir.Gen.io.load_valued_intervals loadValuedIntervals
+  simp only [load_delimited_of_table, bind, Except.bind]
+  cases hr : loadTable [numConv conv, numConv conv, numConv conv] d c s with
+  | error e => rfl
+  | ok rows =>
+    have h0 := numAt_of_loadRows hr 0 conv rfl
+    have h1 := numAt_of_loadRows hr 1 conv rfl
+    have h2 := numAt_of_loadRows hr 2 conv rfl
+    simp [columns_three, Cols.ofList, npArray, npPairs_columns 0 1 rows h0 h1, cellNums_column 2 rows h2,
+      Except.map, pure, Except.pure]
+
+/-! ## `load_key`, `load_tempo` -/
+
+theorem strConvs_eq {α : Type} :
+    ([strConv, strConv] : List (Conv (Cell α))) = [some, some].map (wrapConv Cell.str) := rfl
+
+theorem numConvs_eq {α : Type} (conv : Conv α) :
+    ([numConv conv, numConv conv, numConv conv] : List (Conv (Cell α))) =
+      [conv, conv, conv].map (wrapConv Cell.num) := rfl
+
+theorem load_key_eq_model (s : List Char) (d : Delim) (c : Option (List Char)) :
+    Mir.Gen.io.load_key s d c = obs (loadKey d c s) := by
+  unfold Mir.Gen.io.load_key loadKey
+  simp only [load_delimited_of_table, bind, Except.bind, strConvs_eq, loadTable_wrap, List.length_map]
+  cases hr : loadTable (α := List Char) [some, some] d c s with
+  | error e => rfl
+  | ok rows =>
+    have hlen := loadRows_row_length [some, some] d c _ 1 rows hr
+    have h2len : ([some, some] : List (Conv (List Char))).length = 2 := rfl
+    simp only [Except.map, h2len, columns_two, column_map, Cols.ofList]
+    have hcl : (column rows 0).length = rows.length :=
+      column_length rows 0 (fun r h => by rw [hlen r h]; decide)
+    match rows, hlen, hcl with
+    | [], _, hcl => simp [column, raised]
+    | [r], hlen, _ =>
+      have h2 : r.length = 2 := hlen r (by simp)
+      match r, h2 with
+      | [a, b], _ => simp [column, cellStr, index, pure, Except.pure]
+    | r1 :: r2 :: rest, hlen, hcl =>
+      have e1 : decide (len (List.map Cell.str (column (r1 :: r2 :: rest) 0) : List (Cell Unit)) = (1 : Int)) = false :=
+        decide_eq_false (by simp only [len_eq, List.length_map, hcl, List.length_cons]; omega)
+      simp only [e1, Bool.not_false, if_true]
+      have h2 : r1.length = 2 := hlen r1 (by simp)
+      match r1, h2 with
+      | [a, b], _ => simp [raised]
+
+/-- `between_ 0 1` is the model's weight test; the two tempi come back as the array `[t1, t2]`, the weight as the
+    cell the `float` converter made -/
+theorem load_tempo_eq_model {α : Type} (conv : Conv α) (between : Int → Int → α → Bool) (s : List Char)
+    (d : Delim) (c : Option (List Char)) :
+    Mir.Gen.io.load_tempo conv between s d c =
+      obs ((loadTempo conv (between 0 1) d c s).map fun ((a, b), w) => ([a, b], Cell.num w)) := by
+  unfold Mir.Gen.io.load_tempo loadTempo
+  simp only [load_delimited_of_table, bind, Except.bind, numConvs_eq, loadTable_wrap, List.length_map]
+  cases hr : loadTable [conv, conv, conv] d c s with
+  | error e => rfl
+  | ok rows =>
+    have hlen := loadRows_row_length [conv, conv, conv] d c _ 1 rows hr
+    have h3len : ([conv, conv, conv] : List (Conv α)).length = 3 := rfl
+    simp only [Except.map, h3len, columns_three, column_map, Cols.ofList]
+    have hcl : (column rows 0).length = rows.length :=
+      column_length rows 0 (fun r h => by rw [hlen r h, h3len]; decide)
+    match rows, hlen, hcl with
+    | [], _, _ => simp [column, raised]
+    | [r], hlen, _ =>
+      have h3 : r.length = 3 := hlen r (by simp)
+      match r, h3 with
+      | [a, b, w], _ =>
+        cases hb : between 0 1 w <;>
+          simp [column, npConcat2, cellNums, cellNum, cellBetween, index, pure, Except.pure, hb, raised]
+    | r1 :: r2 :: rest, hlen, hcl =>
+      have e1 : decide (len (List.map Cell.num (column (r1 :: r2 :: rest) 0) : List (Cell α)) = (1 : Int)) = false :=
+        decide_eq_false (by simp only [len_eq, List.length_map, hcl, List.length_cons]; omega)
+      have h3 : r1.length = 3 := hlen r1 (by simp)
+      match r1, h3 with
+      | [a, b, w], _ =>
+        have hw : index (List.map Cell.num (column ([a, b, w] :: r2 :: rest) 2) : List (Cell α)) 0 = .ok (Cell.num w) := by
+          simp [column]
+        simp only [hw, npConcat2, cellNums_map_num, e1, Bool.not_false, if_true]
+        simp [raised]
